@@ -25,7 +25,7 @@ CLAIMS = {
    text="both directions over random histories (all table kinds and key/value types of the corpora, savepoints, compaction): every clean-close file and every crash image must be opened by the other release with exactly one commit point of the history, the same contents the writing release shows, a passing integrity check and a working subsequent write. One known finding (3.0.0 answers Ok(false) on files shorter than it ever creates).",
    note="4 KiB pages only (3.0.0 cannot choose); 3.0.0's own unrecoverable crash images skipped", ref="DESIGN.md 4/C19"),
  "C13": dict(cat="fault_enumeration", tech="TLA+ spec Compact.tla (the relocation loop on page positions, all small forests and placements) checked by TLC; TLA+ oracle (Kv.tla Compact + CrashAtomic) with TLC trace validation of compaction-heavy histories and crash enumeration of every backend operation issued during compaction",
-   text="contents unchanged, refusals as documented (a reader at every position relative to pending non-durable commits), file never larger, bounded syncs (a compact() that does not finish is ended by a watchdog and reported), compact() again at once moves nothing, and all crash points inside compaction recover to the unchanged contents. One known finding: compact() on a just-compacted file can extend it.",
+   text="contents unchanged, refusals as documented (a reader at every position relative to pending non-durable commits; a savepoint created and committed by a write transaction on another thread while compact() waits for the write lock), file never larger, bounded syncs (a compact() that does not finish is ended by a watchdog and reported), compact() again at once moves nothing, and all crash points inside compaction recover to the unchanged contents. One known finding: compact() on a just-compacted file can extend it.",
    note="pass bound is a function of the file size (8 * (pages + 8) syncs)", ref="DESIGN.md 4/C13"),
  "C15": dict(cat="exploration", tech="TLA+ spec KeyOrder.tla (separator rules transcribed, contract checked by TLC over small domains) + enumeration of real encodings of all built-in key types judged by TLC (KeyOrderTrace.tla)",
    text="exploration with a specification oracle: the contract (order equals value order, a <= sep < b, no longer than a, valid encoding, round trip) is stated in TLA+, the separator rules are model-checked on small domains, and every ordered pair of a per-type corpus of real encodings is judged by TLC.",
